@@ -202,6 +202,17 @@ func checkC16(res *world.Result, s *simrt.Sim, sc *Scenario, logs []*PlugLog, ho
 	}
 	// reasons of the host's own (bad option, module that does not compile or generate)
 	hostWhy := hostFaults(sc)
+	if sc.Conflict[0] > 0 {
+		a, b := sc.Plugins[sc.Conflict[0]-1], sc.Plugins[sc.Conflict[1]-1]
+		due := true
+		for _, ps := range []*Script{a, b} {
+			due = due && ps.handshakeOK() && ps.aliveAfterHandshake() && ps.advertisesSG() && genReplyDelivered(ps)
+		}
+		if due {
+			hostWhy = append(hostWhy, fmt.Sprintf("plugins %s and %s both answer with plug_shared/same.go", a.Name, b.Name))
+			res.Count("c16.conflict-due", 1)
+		}
+	}
 	if len(hostWhy) > 0 {
 		res.Count("c16.host-side-fault", 1)
 		for _, l := range logs {
